@@ -270,12 +270,17 @@ def h_eqhash(ctx, cfg):
   a = [_finite(ctx, "a%d" % i) for i in range(len(sp))]
   b = [_finite(ctx, "b%d" % i) for i in range(len(sq))]
   as_float = cfg.get("float", False)
+  # the two polynomials may carry zeros that are equal but of another type / repr (0, 0.0, False, Fraction(0))
+  ZK = {"int": 0, "float": 0.0, "bool": False, "fraction": Fraction(0), "default": None}
+  zp, zq = ZK[cfg.get("zero_p", "int")], ZK[cfg.get("zero_q", "int")]
+  kwp = {} if zp is None else {"zero": zp}
+  kwq = {} if zq is None else {"zero": zq}
   if ctx.mode == "concrete":
-    P = Poly(dict(zip(sp, a)), zero=0)
-    Q = Poly(dict(zip(sq, [float(x) for x in b] if as_float else b)), zero=0)
+    P = Poly(dict(zip(sp, a)), **kwp)
+    Q = Poly(dict(zip(sq, [float(x) for x in b] if as_float else b)), **kwq)
   else:
-    P = Poly(dict(zip(sp, a)), zero=0)
-    Q = Poly(dict(zip(sq, b)), zero=0)
+    P = Poly(dict(zip(sp, a)), **kwp)
+    Q = Poly(dict(zip(sq, b)), **kwq)
   pc = {k: v for k, v in zip(sp, a)}; qc = {k: v for k, v in zip(sq, b)}
   mathematically_equal = all(bool(ctx.eq(pc.get(k, 0), qc.get(k, 0))) for k in set(sp) | set(sq))
   e = bool(P == Q); ne = bool(P != Q)
@@ -284,10 +289,14 @@ def h_eqhash(ctx, cfg):
   if e:
     ctx.prove(hash(P) == hash(Q), "equal-polys-hash-equal")
   # comparison against a plain number
-  c = DOM[cfg.get("ci", 2)]
-  ec = bool(P == c)
-  want = all(bool(ctx.eq(pc.get(k, 0), c if k == 0 else 0)) for k in set(sp) | {0})
-  ctx.prove(ec == want, "eq-with-number", "P==%s gave %s" % (c, ec))
+  for c in DOM + [0, 0.0, 1.0]:
+    want = all(bool(ctx.eq(pc.get(k, 0), c if k == 0 else 0)) for k in set(sp) | {0})
+    ec, nec, rec = bool(P == c), bool(P != c), bool(c == P)
+    ctx.prove(ec == want, "eq-with-number", "P==%r gave %s" % (c, ec))
+    ctx.prove(rec == want, "eq-with-number", "%r==P gave %s" % (c, rec))
+    ctx.prove(nec != ec, "exactly-one-of-eq-ne", "P==%r is %s and P!=%r is %s" % (c, ec, c, nec))
+    if ec:
+      ctx.prove(hash(P) == hash(Poly(c, **kwp)), "equal-polys-hash-equal", "P == %r but hash(P) != hash(Poly(%r))" % (c, c))
 
 
 def tasks(tier, seed):
@@ -340,4 +349,7 @@ def tasks(tier, seed):
   for sp, sq in eh:
     T.append(("h_eqhash", {"sp": list(sp), "sq": list(sq)}))
   T.append(("h_eqhash", {"sp": [0, 1], "sq": [0, 1], "float": True}))
+  for zp, zq in (("int", "float"), ("default", "int"), ("bool", "int"), ("fraction", "default"), ("float", "fraction")):
+    for sp in ((0, 1), (2,), (0,)):
+      T.append(("h_eqhash", {"sp": list(sp), "sq": list(sp), "zero_p": zp, "zero_q": zq}))
   return T
